@@ -174,7 +174,8 @@ DecCount(s, pid) == [s EXCEPT !.cnt = @ \ {pid}]       (* DEV 5: the code subtra
 (* send_stored(): re-send every stored packet that fits, drop (and release) the others *)
 RECURSIVE SendStoredFrom(_, _)
 SendStoredFrom(s, i) ==
-  IF i > Len(s.store) THEN R(s, <<>>)
+  IF i > Len(s.store)
+  THEN R(IF s.sendMax > 0 THEN [s EXCEPT !.cnt = @ \cup s.relPend] ELSE s, <<>>)      (* DEV 28: exchanges awaiting PUBREL *)
   ELSE LET e == s.store[i] IN
        IF e.size > s.mpsSend
        THEN LET s1 == [s EXCEPT !.store = SelectSeq(@, LAMBDA x : x.pid # e.pid),
@@ -270,9 +271,9 @@ SendPublish(s, p) ==
     THEN Refuse(s, p, NotAllowed)
   ELSE IF q /\ ~Used(s, p.pid) THEN R(s, << EvErr("PacketIdentifierInvalid") >>)
   ELSE IF ~q /\ ~conn THEN R(s, << EvErr(NotAllowed) >>)
-  ELSE IF p.ver = "v50" /\ aliasBad THEN Refuse(s, p, NotAllowed)
   ELSE IF p.ver = "v50" /\ q /\ s.sendMax > 0 /\ Cardinality(s.cnt) >= s.sendMax                    (* DEV 5: >= *)
     THEN Refuse(s, p, "ReceiveMaximumExceeded")
+  ELSE IF p.ver = "v50" /\ aliasBad THEN Refuse(s, p, NotAllowed)
   ELSE
     LET doStore == q /\ s.needStore
         s1 == IF doStore THEN [s EXCEPT !.store = Append(@, StoreCopy(s, p))] ELSE s
@@ -300,8 +301,7 @@ SendPubrel(s, p) ==
   IF s.status # "connected" /\ ~s.needStore THEN R(s, << EvErr(NotAllowed) >>)
   ELSE IF ~Used(s, p.pid) THEN R(s, << EvErr("PacketIdentifierInvalid") >>)
   ELSE LET s1 == IF s.needStore /\ ~StoreHas(s, p.pid) THEN [s EXCEPT !.store = Append(@, p)] ELSE s
-           s2 == [s1 EXCEPT !.pubcomp = @ \cup {p.pid}, !.relPend = @ \ {p.pid},                   (* DEV 8 *)
-                            !.cnt = IF p.ver = "v50" /\ s.sendMax > 0 /\ s.status = "connected" THEN @ \cup {p.pid} ELSE @]   (* DEV 28 *)
+           s2 == [s1 EXCEPT !.pubcomp = @ \cup {p.pid}, !.relPend = @ \ {p.pid}]                   (* DEV 8 *)
        IN  IF s.status = "connected" THEN SendPlain(s2, p, 0) ELSE R(s2, <<>>)                     (* DEV 8 *)
 
 SendSubUnsub(s, p) ==
